@@ -1,4 +1,120 @@
+import LdarModel.Model.Sensor
 import LdarModel.Driver.Proto
-/- driver stub: replaced by the component's real driver -/
-open LdarModel.Proto
-def main : IO Unit := runDriver (fun (_ : Unit) (_ : List String) => ((), "bad-op")) ()
+/-
+Driver for the sensor model.  State: the coverage store of every emission id seen so far (so that a
+sequence of surveys over the same world is threaded by the model itself; only rolls are inputs).
+
+  reset                                   -> ok
+  survey <scale c|g|s> <m> <site> <mdl> <layout> <errs> <emis> <usestate 0|1>
+      layout = [[g,[c1,c2,...]],...]      groups and components of the surveyed site, in site order
+      errs   = [e1,e2,...]                percent shifts: per component (flattened) / per group / one
+      emis   = [[id,site,eqg,comp,rate,active,emitting,spatialRoll,temporalRoll,[[m,b],...]],...]
+               (with usestate 1 the coverage store of a known id comes from the driver state)
+    -> <ret> <true> <measured> | <units> | <obs> | <tags> | <tagged ids> | <recorded ids>
+      units  = g/true/measured/detected/c:true:measured:detected,...  joined by ';'   ("-" if none)
+      obs    = id:vis:spatialRollDrawn:temporalRollDrawn:storedOutcomeAfter           joined by ';'
+      tags   = g.c joined by ','                                                       ("-" if none)
+  flag <inst|-> <thr> <measured>          -> 0|1
+All rates in the common unit, measured rates and thresholds of `flag` in hundredths of it.
+-/
+open LdarModel LdarModel.Sensor LdarModel.Proto
+
+abbrev Store := List (Nat × List (Nat × Bool))
+
+def storeGet (st : Store) (id : Nat) : Option (List (Nat × Bool)) :=
+  match st with
+  | [] => none
+  | (k, v) :: l => if k = id then some v else storeGet l id
+
+def storePut (st : Store) (id : Nat) (v : List (Nat × Bool)) : Store :=
+  (id, v) :: st.filter (fun kv => kv.1 ≠ id)
+
+def parseCov (s : String) : Option (Nat × Bool) := do
+  match ← splitTop s with
+  | [m, b] => some (← nat? m, ← bool? b)
+  | _ => none
+
+def parseEmis (s : String) : Option (Emis × Rolls) := do
+  match ← splitTop s with
+  | [id, site, g, c, rate, act, emit, sr, tr, cov] =>
+    let e : Emis := { id := ← nat? id, site := ← nat? site, eqg := ← nat? g, comp := ← nat? c,
+                      rate := ← int? rate, active := ← bool? act, emitting := ← bool? emit,
+                      cov := ← listOf? parseCov cov }
+    some (e, { spatial := ← bool? sr, temporal := ← bool? tr })
+  | _ => none
+
+def parseGroup (s : String) : Option (Nat × List Nat) := do
+  match ← splitTop s with
+  | [g, cs] => some (← nat? g, ← natList? cs)
+  | _ => none
+
+/-- attach the flat shift list to the components of the layout, in order (missing shifts: 0) -/
+def attachErrs (layout : List (Nat × List Nat)) (errs : List Int) : List (Nat × List (Nat × Int)) :=
+  (layout.foldl (fun (acc : List (Nat × List (Nat × Int)) × List Int) gc =>
+      let n := gc.2.length
+      let es := acc.2.take n
+      (acc.1 ++ [(gc.1, gc.2.zip (es ++ List.replicate (n - es.length) 0))], acc.2.drop n))
+    ([], errs)).1
+
+def mkCfg (scale : String) (layout : List (Nat × List Nat)) (errs : List Int) : Option Cfg :=
+  if scale = "c" then some (.component (attachErrs layout errs))
+  else if scale = "g" then
+    some (.eqg ((layout.map (·.1)).zip (errs ++ List.replicate (layout.length - errs.length) 0)))
+  else if scale = "s" then some (.site (errs.headD 0))
+  else none
+
+def showComp (c : CompRep) : String :=
+  s!"{c.comp}:{c.trueRate}:{c.measured}:{showBool c.detected}"
+
+def showEqg (scale : String) (e : EqgRep) : String :=
+  let det := if scale = "g" then showBool e.detected else "-"
+  s!"{e.eqg}/{e.trueRate}/{e.measured}/{det}/" ++ ",".intercalate (e.comps.map showComp)
+
+def showCovOf (m : Nat) (e : Emis) : String :=
+  match covOf m e with
+  | none => "-"
+  | some b => showBool b
+
+def showObs (m : Nat) (o : Obs) : String :=
+  s!"{o.e.id}:{showBool o.vis}:{showBool o.sRoll}:{showBool o.tRoll}:{showCovOf m o.e}"
+
+def joinOr (sep : String) (l : List String) : String := if l.isEmpty then "-" else sep.intercalate l
+
+def doSurvey (st : Store) (scale : String) (m : Nat) (s : Nat) (mdl : Int) (cfg : Cfg)
+    (xs0 : List (Emis × Rolls)) (useState : Bool) : Store × String :=
+  let xs := if useState then
+      xs0.map (fun x => match storeGet st x.1.id with
+                        | some cov => ({ x.1 with cov := cov }, x.2)
+                        | none => x)
+    else xs0
+  let obs := detect m s xs
+  let rep := survey cfg m mdl s xs
+  let targets := tagTargets rep
+  let tagged := taggedIds s targets (xs.map (·.1))
+  let st' := if useState then obs.foldl (fun acc o => storePut acc o.e.id o.e.cov) st else st
+  let line :=
+    s!"{showBool rep.ret} {rep.trueRate} {rep.measured} | " ++
+    joinOr ";" (rep.eqgs.map (showEqg scale)) ++ " | " ++
+    joinOr ";" (obs.map (showObs m)) ++ " | " ++
+    joinOr "," (targets.map (fun gc => s!"{gc.1}.{gc.2}")) ++ " | " ++
+    showList toString tagged ++ " | " ++ showList toString rep.recorded
+  (st', line)
+
+def step (st : Store) (toks : List String) : Store × String :=
+  match toks with
+  | ["reset"] => ([], "ok")
+  | ["survey", scale, m, site, mdl, layout, errs, emis, us] =>
+    match nat? m, nat? site, int? mdl, listOf? parseGroup layout, intList? errs,
+          listOf? parseEmis emis, bool? us with
+    | some m, some site, some mdl, some layout, some errs, some xs, some us =>
+      match mkCfg scale layout errs with
+      | some cfg => doSurvey st scale m site mdl cfg xs us
+      | none => (st, "bad-op")
+    | _, _, _, _, _, _, _ => (st, "bad-op")
+  | ["flag", inst, thr, m] =>
+    match optInt? inst, int? thr, int? m with
+    | some inst, some thr, some m => (st, showBool (flagCandidate inst thr m))
+    | _, _, _ => (st, "bad-op")
+  | _ => (st, "bad-op")
+
+def main : IO Unit := runDriver step ([] : Store)
